@@ -277,6 +277,9 @@ fn run_case(dec: &mut Dec, record: bool) -> Outcome {
                     (Ok(nread), None) => {
                         if to_string && !delivered_valid {
                             viol = v("read_to_string|ok-on-invalid-utf8", format!("returned Ok({nread}) although the delivered bytes are not UTF-8"));
+                        } else if !rd.script.eof_seen {
+                            // "exactly the concatenated bytes": everything up to the end of the stream
+                            viol = v(&format!("{name}|ok-before-end-of-stream"), format!("returned Ok({nread}) although the reader never reported the end of the stream ({} of {} bytes delivered so far)", rd.pos, data.len()));
                         } else if *nread != delivered.len() {
                             viol = v(&format!("{name}|wrong-count"), format!("returned Ok({nread}), reader delivered {} bytes", delivered.len()));
                         } else if after.len() != old.len() + delivered.len() || after[..old.len()] != old[..] || after[old.len()..] != *delivered {
